@@ -147,6 +147,7 @@ def execute(w: World, ex, steps, opts: dict):
     expects (exp) -- at the first step whose observed triple differs from it (what follows would
     only be consequences).  A status call that raises leaves an event without a report."""
     w.reset_empty()
+    w.perms = opts.get("perms", 0)
     is_dul = isinstance(ex, DulExec)
     head, wd, idx = {}, {}, {}
     events, done = [], []
